@@ -1035,8 +1035,8 @@ theorem Basis3.absDiffEq_iff_abs (a b : Basis3 α) (e : α) :
 theorem Basis3.absDiffEq_false_of_gt (a b : Basis3 α) (e : α) (p : α × α) (hp : p ∈ a.mat.toList.zip b.mat.toList)
     (h : e < |p.1 - p.2|) : Basis3.absDiffEq a b e = false :=
   Basis3.absDiffEq_false_of_element a b e p hp (scalar_absDiffEq_false_of_gt S _ _ _ h)
-/-- `abs_diff_eq` within tolerance implies the other two relations, for every compound type
-(shown for the largest chains) -/
+/-- `abs_diff_eq` within tolerance implies the other two relations: stated and proved for `Matrix4` only (the largest `&&`
+chain); the same argument would apply to the other compound types but no theorem states it for them -/
 theorem M4.relEq_of_absDiffEq (a b : M4 α) (e m : α) (h : M4.absDiffEq a b e = true) :
     M4.relEq a b e m = true := by
   rw [M4.absDiffEq_iff] at h; rw [M4.relEq_iff]
